@@ -62,6 +62,12 @@ func (fr *Frame) callFn(st *State, site ssa.Instruction, fn *ssa.Function, args 
 		// generic instance not built
 	}
 	full := fn.String()
+	if fr.top {
+		v.lastCallQual = ""
+		if fn.Pkg != nil && fn.Signature.Recv() == nil {
+			v.lastCallQual = fn.Pkg.Pkg.Name() + "." + fn.Name()
+		}
+	}
 	if r, ok := fr.intrinsic(st, site, full, fn, args); ok {
 		if fr.top && fn.Pkg != nil && fn.Pkg.Pkg.Path() == "math/big" {
 			// modelled math/big calls are visible to cut anchors like any other call
@@ -834,6 +840,10 @@ func (fr *Frame) invokeAbstract(st *State, site ssa.Instruction, iv *IfaceV, cc 
 		return r
 	}
 	if fr.top {
+		fr.v.lastCallQual = ""
+		if n, ok := cc.Value.Type().(*types.Named); ok && n.Obj().Pkg() != nil {
+			fr.v.lastCallQual = n.Obj().Pkg().Name() + "." + n.Obj().Name() + "." + cc.Method.Name()
+		}
 		// interface calls are visible to cut anchors like any other call (callarg0 is the interface value)
 		st.srcVar["callarg0"] = iv
 		st.srcAdr["callarg0"] = false
@@ -1406,7 +1416,7 @@ func specIsBool(e *SpecExpr) bool {
 		case *ast.CallExpr:
 			if id, ok := t.Fun.(*ast.Ident); ok {
 				switch id.Name {
-				case "isnil", "same", "iszero", "fresh", "iterfresh", "noescape", "bigparseok", "forall", "exists", "hasroot", "lexlargest", "eqmod", "imp":
+				case "isnil", "same", "iszero", "fresh", "iterfresh", "noescape", "bigparseok", "called", "forall", "exists", "hasroot", "lexlargest", "eqmod", "imp":
 					return true
 				}
 				if strings.HasPrefix(id.Name, "ufbool_") {
